@@ -90,6 +90,8 @@ def single_ops(spec, with_copies=True):
         for t in [-1] + list(range(n)):
             for b in befores(t):
                 yield ["move", i, t, b]
+        yield ["move", i, -2, None]  # to another tree (the Tree object / one of its nodes): refused
+        yield ["move", i, -3, None]
         for kc in (False, True):
             yield ["remove", i, kc, False]
         yield ["remove", i, False, True]
@@ -120,6 +122,10 @@ def single_ops(spec, with_copies=True):
     yield ["filter", [flat[i][0][0] for i in range(0, n, 2)]]
     yield ["add_tree", -1, None, None]
     yield ["add_tree", -1, True, None]
+    for i in range(n):
+        for how in ("append_child", "prepend_child", "prepend_sibling", "append_sibling"):
+            yield ["shortcut_tree", how, i, None]
+            yield ["shortcut_tree", how, i, False]
     # the tree copied into itself: below every node (the copy shows the tree as it was before), and at top level
     for t in [-1] + list(range(n)):
         yield ["add_own_tree", t, None, None]
@@ -178,7 +184,7 @@ def enum_two_step(tier):
 @st.composite
 def hyp_cases(draw, tier):
     typed = draw(st.booleans())
-    flavour = draw(st.sampled_from(["str", "str", "tuple", "dc", "obj_cb", "dictwrap"]))
+    flavour = draw(st.sampled_from(["str", "str", "tuple", "dc", "obj_cb", "dictwrap", "obj_fwd"]))
     case = draw(gen_ops.histories(typed=typed, max_ops=40 if tier == "quick" else 80, fresh=flavour != "str"))
     case["flavour"] = flavour
     return case
